@@ -46,6 +46,7 @@ type stepper struct {
 	view         pipex.View
 	baseline     int64
 	capN         int
+	viewMetas    []int
 }
 
 var leakRe = regexp.MustCompile(`outstanding=(-?\d+)`)
@@ -209,6 +210,7 @@ func (s *stepper) observe(obs replay.Obs, r *httpx.Resp, rid string, unary bool,
 	obs["status"] = r.Status
 	kinds := []string{}
 	vals := []any{}
+	metas := []int{}
 	logs := [][]string{}
 	errs := [][]string{}
 	tb := false
@@ -234,11 +236,17 @@ func (s *stepper) observe(obs replay.Obs, r *httpx.Resp, rid string, unary bool,
 				token = true
 			}
 			vals = append(vals, s.abstract(b.Val, unary, x, isProd))
+			if _, has := b.Meta["user.key"]; has {
+				metas = append(metas, 1)
+			} else {
+				metas = append(metas, 0)
+			}
 		}
 		kinds = append(kinds, b.Kind)
 	}
 	obs["kinds"] = kinds
 	obs["vals"] = vals
+	obs["metas"] = metas
 	obs["logs"] = logs
 	obs["errs"] = errs
 	obs["tb"] = tb
@@ -344,6 +352,9 @@ func (s *stepper) addView(obs replay.Obs) {
 	if v, ok := obs["vals"].([]any); ok {
 		s.view.Vals = append(s.view.Vals, v...)
 	}
+	if v, ok := obs["metas"].([]int); ok {
+		s.viewMetas = append(s.viewMetas, v...)
+	}
 	if l, ok := obs["logs"].([][]string); ok {
 		s.view.Logs = append(s.view.Logs, l...)
 	}
@@ -390,7 +401,7 @@ func (s *stepper) pipeView() pipex.View {
 func (s *stepper) finishStream(obs replay.Obs, st replay.Step) {
 	ended, _ := st.Exp["ended"].(bool)
 	_ = ended
-	obs["view"] = map[string]any{"hdr": s.view.Hdr, "vals": s.view.Vals, "logs": s.view.Logs, "errs": s.view.Errs}
+	obs["view"] = map[string]any{"hdr": s.view.Hdr, "vals": s.view.Vals, "metas": s.viewMetas, "logs": s.view.Logs, "errs": s.view.Errs}
 	tok, _ := obs["token"].(bool)
 	obsEnded := !tok
 	if m := replay.Str(s.call, "m"); !isProd(m) {
@@ -404,8 +415,8 @@ func (s *stepper) finishStream(obs replay.Obs, st replay.Step) {
 	if _, want := st.Exp["pipe_eq"]; want && obsEnded {
 		pv := s.pipeView()
 		hv := pipex.View{Hdr: s.view.Hdr, Vals: s.view.Vals, Logs: s.view.Logs, Errs: s.view.Errs}
-		eq := replay.Equal(map[string]any{"hdr": pv.Hdr, "vals": pv.Vals, "logs": pv.Logs, "errs": pv.Errs},
-			map[string]any{"hdr": hv.Hdr, "vals": hv.Vals, "logs": hv.Logs, "errs": hv.Errs})
+		eq := replay.Equal(map[string]any{"hdr": pv.Hdr, "vals": pv.Vals, "logs": pv.Logs, "errs": pv.Errs, "metas": pv.Metas},
+			map[string]any{"hdr": hv.Hdr, "vals": hv.Vals, "logs": hv.Logs, "errs": hv.Errs, "metas": s.viewMetas})
 		obs["pipe_eq"] = eq
 		if !eq {
 			obs["__note__"] = fmt.Sprintf("pipe view %+v vs http view %+v", pv, hv)
@@ -444,6 +455,7 @@ func (s *stepper) Step(i int, st replay.Step) (replay.Obs, error) {
 		s.call = a
 		s.script = s.scriptOf(a)
 		s.view = pipex.View{Vals: []any{}, Logs: [][]string{}, Errs: [][]string{}}
+		s.viewMetas = []int{}
 		s.cursor, s.ctok = "", ""
 		m := replay.Str(a, "m")
 		var body []byte
